@@ -59,10 +59,10 @@ def run_m(prop, tier, seed, ev, ex, obligations, replay_inj=None, replay_test=No
             continue
         # violated: replay natively
         log(f"[{prop}] {name}: solver counterexample: {ob.detail}\n    values: {json.dumps(ob.cex, default=str)[:700]}")
-        payload = {"property": prop, "obligation": name, "role": role, "detail": ob.detail,
-                   "values": ob.cex, "replay_test": replay_test, "source_digest": vlib.src_digest()}
         r_inj = replay_inj(ob) if callable(replay_inj) else replay_inj
         r_test = replay_test(ob) if callable(replay_test) else replay_test
+        payload = {"property": prop, "obligation": name, "role": role, "detail": ob.detail,
+                   "values": ob.cex, "replay_test": r_test, "source_digest": vlib.src_digest()}
         reproduced, path, out = native_replay_m(prop, r_inj or [], r_test, payload)
         kf = vlib.known_finding_for(prop, role)
         if reproduced is True:
